@@ -193,6 +193,8 @@ def run(ctx):
     if st != "skip":
         rep.check(st == "ok", "C17.R4", "recover:frontier-before-compared", detail, "%s — %s" % (st, detail), site=obs.loc())
     tail = find_guard(prog, rec, PE, "WalTailNotClean", {"f:tail_posture"}, set())
+    if tail[0] == "ok":
+        check_strength(rep, "C17.R4", "guard:recover:WalTailNotClean:f:tail_posture", "C17", prog, rec, PE, "WalTailNotClean", {"f:tail_posture"}, set())
     rep.check(tail[0] == "ok", "C17.R4", "recover:clean-tail-required", tail[1], "%s — %s" % tail, site=rec.loc())
     rs = rec.call_sites(r"recover_from_frames_and_commits$")
     rep.check(len(rs) == 1 and result_inspected(rec, rs[0])[0], "C17.R4", "recover:wal-validation-propagated", "WAL validation result propagated", "WAL recovery result dropped", site=rec.loc())
